@@ -148,3 +148,16 @@ val obj_items : nat -> bool -> nat -> coq_N list -> item list
 val ref_object_iter : coq_N list -> item list
 
 val merge : nat -> jv -> jv -> jv
+
+val fffd : coq_N list
+
+val utf8_lossy_f : nat -> coq_N list -> coq_N list
+
+val utf8_lossy : coq_N list -> coq_N list
+
+val str_body_lossy :
+  nat -> coq_N list -> ((coq_N list * bool) * coq_N list) option
+
+val decode_literal : bool -> coq_N list -> (coq_N list * bool) option
+
+val skip_literal : coq_N list -> bool
